@@ -4,10 +4,19 @@
 //! `Display` is compared before parsing, after parsing and after evaluating; prepared
 //! evaluators are re-run in random order and must give their first value again; the Lean
 //! model (whose scope-preservation is a theorem) must agree with the implementation.
+//!
+//! Model level ("boxed contexts in models", "an invocable does not alter the caller's context"): the
+//! requirement graphs of C04's corpus whose evaluation pushes and pops contexts around a use of the caller's
+//! own names (`scope-…`: a decision service used as a function inside a larger expression, a boxed invocation
+//! without bindings, a knowledge model with a boxed-context body) and a sample of generated graphs, against the
+//! Lean model of requirement graphs — a context left behind or popped once too often shows as a wrong value.
 
 use crate::report::Report;
 use crate::Cfg;
 
 pub fn run(cfg: &Cfg) -> Report {
-  crate::c01::run_with(cfg, "C13")
+  let mut rep = crate::c01::run_with(cfg, "C13");
+  let thorough = cfg.tier == "thorough";
+  crate::c04::run_graphs(cfg, &mut rep, if thorough { 1500 } else { 150 }, false, "scope-");
+  rep
 }
